@@ -66,7 +66,7 @@ R.contract("PhasingStats.__iadd__", params={"self": REF("PhasingStats"), "other"
            modifies=["PhasingStats." + f for f in ["blocks", "split_blocks"] + _COUNTERS], props=["C12"])
 for _name, _field, _param in [("add_unphased", "unphased", "unphased"), ("add_variants", "variants", "variants"),
                               ("add_heterozygous_variants", "heterozygous_variants", "variants"), ("add_heterozygous_snvs", "heterozygous_snvs", "snvs")]:
-    R.contract("PhasingStats." + _name, params={"self": REF("PhasingStats"), _param: INT},
+    R.contract("PhasingStats." + _name, params={"self": REF("PhasingStats"), _param: INT}, extra=({"defaults": {"unphased": 1}} if _name == "add_unphased" else {}),
                ensures=[("adds", "self.%s == old(self.%s) + %s" % (_field, _field, _param))] +
                        [("keeps-" + c, "self.%s == old(self.%s)" % (c, c)) for c in _COUNTERS if c != _field],
                modifies=["PhasingStats." + _field], props=["C12"])
@@ -113,3 +113,225 @@ R.contract(
         ("chromosome", "left_block.chromosome == self.chromosome and right_block.chromosome == self.chromosome")])},
     extra={"allocates": ["PhasedBlock"]},
     props=["C12"])
+
+
+# ---- write_to_block_list (C12: the block list has one line per phase set, in increasing order of the set's id, with its true extent -- 1-based positions of
+# the leftmost and rightmost variant the block object holds, which PhasedBlock.add keeps equal to the real extremes (INV) -- and its size)
+import z3  # noqa: E402
+
+R.declare_class("BlockListFile", {"lines": LIST(INT)})
+BLOCKROW = z3.Function("BLOCK_LIST_ROW", *([z3.IntSort()] * 7))
+CARD = z3.Function("NUMBER_OF_VARIANTS_IN_BLOCK", z3.IntSort(), z3.IntSort())
+
+
+class BlockListModel:
+    @staticmethod
+    def print(eng, st, obj, args, kwargs):
+        zs = [to_z3(a) for a in args]
+        if len(zs) != 6:
+            raise Unsupported("block list row with %d fields" % len(zs))
+        lines = eng.load_field(st, obj, "lines")
+        eng.store_field(st, obj, "lines", eng.list_append(lines, BLOCKROW(*zs)))
+        return NONE
+
+
+class BlockLenModel:
+    """len(block) == len(block.phases): the number of variants in the block, an abstract function of the block (cardinalities of dicts are not modelled)"""
+
+    @staticmethod
+    def len(eng, st, obj):
+        return CARD(obj.ref)
+
+
+R.object_models.update({"BlockListFile": BlockListModel, "PhasedBlock": BlockLenModel})
+
+
+@R.spec
+def block_row(eng, st, sample, chromosome, bid, blk):
+    f = lambda o, n: to_z3(eng.load_field_raw(st, o, n))
+    lv, rv = VRef("Variant", f(blk, "leftmost_variant")), VRef("Variant", f(blk, "rightmost_variant"))
+    return BLOCKROW(to_z3(sample), to_z3(chromosome), to_z3(bid), f(lv, "position") + 1, f(rv, "position") + 1, CARD(to_z3(blk)))
+
+
+_IDS = "sorted(blocks.keys())"
+R.contract(
+    "write_to_block_list", params={"block_list_file": REF("BlockListFile"), "blocks": DICT(INT, REF("PhasedBlock")), "chromosome": INT, "sample": INT},
+    requires=[("blocks-exist", "forall(b, implies(b in blocks, blocks[b] is not None and blocks[b].leftmost_variant is not None and blocks[b].rightmost_variant is not None))")],
+    ensures=[("earlier-lines-kept", "forall(k, implies(0 <= k and k < old(len(block_list_file.lines)), block_list_file.lines[k] == old(block_list_file.lines[k])))"),
+             ("one-line-per-phase-set", "len(block_list_file.lines) == old(len(block_list_file.lines)) + len(block_ids)"),
+             ("ids-increase-and-are-exactly-the-phase-sets", "forall(a, c, implies(0 <= a and a < c and c < len(block_ids), block_ids[a] < block_ids[c])) and "
+                                                            "forall(a, implies(0 <= a and a < len(block_ids), block_ids[a] in blocks)) and "
+                                                            "forall(b, implies(b in blocks, exists(a, 0 <= a and a < len(block_ids) and block_ids[a] == b)))"),
+             ("each-line-states-the-extent-and-size-of-its-set", "forall(a, implies(0 <= a and a < len(block_ids), block_list_file.lines[old(len(block_list_file.lines)) + a] == "
+                                                                  "block_row(sample, chromosome, block_ids[a], blocks[block_ids[a]])))")],
+    modifies=["BlockListFile.lines"],
+    locals={"block_ids": LIST(INT), "block_id": INT},
+    loops={0: dict(index="bi", modifies=["BlockListFile.lines"],
+                   inv=[("kept", "forall(k, implies(0 <= k and k < old(len(block_list_file.lines)), block_list_file.lines[k] == old(block_list_file.lines[k])))"),
+                        ("length", "len(block_list_file.lines) == old(len(block_list_file.lines)) + bi"),
+                        ("rows", "forall(a, implies(0 <= a and a < bi, block_list_file.lines[old(len(block_list_file.lines)) + a] == block_row(sample, chromosome, block_ids[a], blocks[block_ids[a]])))")])},
+    props=["C12"])
+
+
+def canary_blocklist():
+    import copy
+    c = copy.copy(R.contracts["write_to_block_list"])
+    c.ensures = [("wrong", "len(block_list_file.lines) == old(len(block_list_file.lines)) + 1")]      # "exactly one line is written"
+    return c
+
+
+R.canaries.append(("stats.py:canary#block-list-has-one-line", canary_blocklist))
+
+
+# ---------------------------------------------------------------------------------------------------------------------------------
+# Loop-body contract for the classification pass of get_phase_blocks (C12: every call is counted as a variant; a call with a missing or homozygous
+# genotype is nothing more; a heterozygous one is either UNPHASED or a member of exactly the block named by its phase's block_id).
+# Unit: loop 0 of get_phase_blocks (`for variant, genotype, phase in zip(variant_table.variants, genotypes, phases)`), GTF output switched off
+# (gtfwriter is None: the GTF branch is not modelled).  `blocks` is a defaultdict(PhasedBlock): looking up a new id creates an empty block.
+# Ghost counting functions of the three input lists (by recurrence): NHET(k), NSNV(k), NUNPH(k) over the first k calls.
+R.declare_class("Genotype", {})
+R.declare_class("Phase", {"block_id": INT})
+R.declare_class("VT", {"variants": LIST(REF("Variant"))})
+GNONE = z3.Function("GENOTYPE_IS_NONE", z3.IntSort(), z3.BoolSort())
+GHOM = z3.Function("GENOTYPE_IS_HOMOZYGOUS", z3.IntSort(), z3.BoolSort())
+ISSNV = z3.Function("VARIANT_IS_SNV", z3.IntSort(), z3.BoolSort())
+NHET = z3.Function("N_HETEROZYGOUS", z3.IntSort(), z3.IntSort())
+NSNV = z3.Function("N_HETEROZYGOUS_SNVS", z3.IntSort(), z3.IntSort())
+NUNPH = z3.Function("N_UNPHASED", z3.IntSort(), z3.IntSort())
+
+
+class GenotypeModel:
+    @staticmethod
+    def method(eng, st, obj, name, args, kwargs):
+        if name == "is_none" and not args:
+            return GNONE(obj.ref)
+        if name == "is_homozygous" and not args:
+            return GHOM(obj.ref)
+        return NotImplemented
+
+
+class VariantModel:
+    @staticmethod
+    def method(eng, st, obj, name, args, kwargs):
+        if name == "is_snv" and not args:
+            return ISSNV(obj.ref)
+        return NotImplemented
+
+
+R.object_models.update({"Genotype": GenotypeModel, "Variant": VariantModel})
+
+
+class BlockMap(VModel):
+    """blocks = defaultdict(PhasedBlock): id -> block object; blocks[id] for a new id creates an empty block (chromosome None) and enters it"""
+
+    def __init__(self, d=None, name="blocks"):
+        self.d = d if d is not None else DICT(INT, REF("PhasedBlock")).fresh(name)
+        self.name = name
+
+    def sym_contains(self, eng, st, x):
+        return self.d.dom[to_z3(x)]
+
+    def sym_getitem(self, eng, st, key):
+        k = to_z3(key)
+        if eng.spec_mode:
+            return VRef("PhasedBlock", self.d.map[k])
+        new = eng.allocate(st, "PhasedBlock")
+        eng.store_field(st, new, "phases", VDict(REF("Variant"), INT, z3.K(z3.IntSort(), z3.BoolVal(False)), z3.K(z3.IntSort(), z3.IntVal(0))))
+        eng.store_field(st, new, "leftmost_variant", VRef("Variant", z3.IntVal(0)))
+        eng.store_field(st, new, "rightmost_variant", VRef("Variant", z3.IntVal(0)))
+        eng.store_field(st, new, "chromosome", z3.IntVal(0))
+        ref = z3.If(self.d.dom[k], self.d.map[k], new.ref)
+        st.env[self.name] = BlockMap(VDict(INT, REF("PhasedBlock"), z3.Store(self.d.dom, k, True), z3.Store(self.d.map, k, ref)), self.name)
+        return VRef("PhasedBlock", ref)
+
+    def havoc(self, eng, st, name):
+        return BlockMap(DICT(INT, REF("PhasedBlock")).fresh(name), name)
+
+
+def _call(eng, st, k):
+    vt = st.env["variant_table"]
+    vs = eng.load_field_raw(st, vt, "variants")
+    return vs.arr[k], st.env["genotypes"].arr[k], st.env["phases"].arr[k]
+
+
+def _het(eng, st, k):
+    v, g, p = _call(eng, st, k)
+    return z3.And(z3.Not(GNONE(g)), z3.Not(GHOM(g)))
+
+
+@R.spec
+def CLASSDEFS(eng, st):
+    k, j = z3.Ints(fresh_name("k") + " " + fresh_name("j"))
+    v, g, p = _call(eng, st, k)
+    het = _het(eng, st, k)
+    step = lambda F, cond: F(j) == F(k) + z3.If(cond, 1, 0)
+    return z3.And(NHET(0) == 0, NSNV(0) == 0, NUNPH(0) == 0,
+                  z3.ForAll([k, j], z3.Implies(z3.And(k >= 0, j == k + 1), z3.And(step(NHET, het), step(NSNV, z3.And(het, ISSNV(v))), step(NUNPH, z3.And(het, p == 0)))),
+                            patterns=[z3.MultiPattern(NHET(k), NHET(j)), z3.MultiPattern(NSNV(k), NSNV(j)), z3.MultiPattern(NUNPH(k), NUNPH(j))]))
+
+
+@R.spec
+def phased_at(eng, st, k):
+    v, g, p = _call(eng, st, to_z3(k))
+    return z3.And(_het(eng, st, to_z3(k)), p != 0)
+
+
+@R.spec
+def nhet(eng, st, k):
+    return NHET(to_z3(k))
+
+
+@R.spec
+def nsnv(eng, st, k):
+    return NSNV(to_z3(k))
+
+
+@R.spec
+def nunph(eng, st, k):
+    return NUNPH(to_z3(k))
+
+
+_NV = "len(variant_table.variants)"
+_COUNTED = ("stats.variants == old(stats.variants) + {k} and stats.heterozygous_variants == old(stats.heterozygous_variants) + nhet({k}) and "
+            "stats.heterozygous_snvs == old(stats.heterozygous_snvs) + nsnv({k}) and stats.unphased == old(stats.unphased) + nunph({k}) and stats.phased_snvs == old(stats.phased_snvs)")
+@R.spec
+def existing_block(eng, st, x):
+    return z3.And(to_z3(x) > 0, to_z3(x) < eng.alloc_bound(st, "PhasedBlock"))
+
+
+_BLOCKS_OK = ("forall(b, implies(b in blocks, existing_block(blocks[b]) and " + _INVB.format(b="blocks[b]") + ")) and "
+              "forall(b1, b2, implies(b1 in blocks and b2 in blocks and b1 != b2, blocks[b1] is not blocks[b2]))")
+_MEMBERS = ("forall(j, implies(0 <= j and j < {k} and phased_at(j), phases[j].block_id in blocks and variant_table.variants[j] in blocks[phases[j].block_id].phases))")
+_ONLY = ("forall(b, implies(b in blocks, forall(implies(v in blocks[b].phases, old(b in blocks and v in blocks[b].phases) or "
+         "exists(j, 0 <= j and j < {k} and phased_at(j) and phases[j].block_id == b and variant_table.variants[j] is v)), v=Variant)))")
+R.contract(
+    "get_phase_blocks#classification",
+    params={"variant_table": REF("VT"), "genotypes": LIST(REF("Genotype")), "phases": LIST(REF("Phase")), "stats": REF("PhasingStats"), "blocks": BlockMap(),
+            "gtfwriter": REF("BlockListFile"), "chromosome": INT},
+    requires=[("same-lengths", "len(genotypes) == " + _NV + " and len(phases) == " + _NV),
+              ("calls-exist", "forall(k, implies(0 <= k and k < " + _NV + ", variant_table.variants[k] is not None and genotypes[k] is not None))"),
+              ("variants-distinct", "forall(a, c, implies(0 <= a and a < c and c < " + _NV + ", variant_table.variants[a] is not variant_table.variants[c]))"),
+              ("no-gtf", "gtfwriter is None"), ("definitions", "CLASSDEFS()")],
+    ensures=[("every-call-counted-in-its-class", _COUNTED.format(k=_NV)),
+             ("blocks-are-well-formed-and-distinct", _BLOCKS_OK),
+             ("every-phased-call-is-in-the-block-of-its-phase-set", _MEMBERS.format(k=_NV)),
+             ("blocks-hold-nothing-else", _ONLY.format(k=_NV))],
+    modifies=["PhasingStats.variants", "PhasingStats.heterozygous_variants", "PhasingStats.heterozygous_snvs", "PhasingStats.unphased",
+              "PhasedBlock.phases", "PhasedBlock.leftmost_variant", "PhasedBlock.rightmost_variant", "PhasedBlock.chromosome"],
+    locals={"variant": REF("Variant"), "genotype": REF("Genotype"), "phase": REF("Phase")},
+    loops={0: dict(index="zi", allocates=["PhasedBlock"],
+                   modifies=["PhasingStats.variants", "PhasingStats.heterozygous_variants", "PhasingStats.heterozygous_snvs", "PhasingStats.unphased",
+                             "PhasedBlock.phases", "PhasedBlock.leftmost_variant", "PhasedBlock.rightmost_variant", "PhasedBlock.chromosome"],
+                   inv=[("counted", _COUNTED.format(k="zi")), ("blocks", _BLOCKS_OK), ("members", _MEMBERS.format(k="zi")), ("only", _ONLY.format(k="zi"))])},
+    extra={"target": "get_phase_blocks", "loop_slice": 0, "nullable": {"gtfwriter": True, "phases": True}, "allocates": ["PhasedBlock"], "assume_asserts": [0]},
+    props=["C12"])
+
+
+def canary_classification():
+    import copy
+    c = copy.copy(R.contracts["get_phase_blocks#classification"])
+    c.ensures = [("wrong", "stats.unphased == old(stats.unphased)")]      # "nothing is ever counted as unphased"
+    return c
+
+
+R.canaries.append(("stats.py:canary#no-call-is-unphased", canary_classification))
